@@ -72,37 +72,39 @@ def mkNErr (env : Env) (ctx : Ctx) (schema : Val) (m : List (Key × Val)) (f : K
 
 /-! ### coercion (`__normalize_coerce`) -/
 
-/-- one processor that is not a chain: a name (method of the class) or a callable -/
+/-- the callable behind a processor that is not a chain: a name (a method of the
+    class, looked up before the `try`) or a callable -/
+def procName (env : Env) : Val → M String
+  | .str n => if env.hasCoercer n then .ok n else raisePy "RuntimeError" "__get_rule_handler"
+  | .fn n => .ok n
+  | _ => .ok "<not callable>"
+
+/-- one processor that is not a chain -/
 def coerceLeaf (env : Env) (ctx : Ctx) (schema : Val) (m : List (Key × Val)) (f : Key) (proc : Val)
-    (value : Val) (nullable : Bool) (code : Nat) (rule : String) : M (Val × List Err) := do
-  let name ← match proc with
-    | .str n => if env.hasCoercer n then pure n else raisePy "RuntimeError" "__get_rule_handler"
-    | .fn n => pure n
-    | _ => pure "<not callable>"
-  match env.coerce name value with
-  | .ok v => pure (v, [])
-  | .error _ =>
-    if nullable && value.isNone then pure (value, [])
-    else do
-      let e ← mkNErr env ctx schema m f code rule
-      pure (value, [e])
+    (value : Val) (nullable : Bool) (code : Nat) (rule : String) : M (Val × List Err) :=
+  match procName env proc with
+  | .error e => .error e
+  | .ok name =>
+    match env.coerce name value with
+    | .ok v => .ok (v, [])
+    | .error _ =>
+      if nullable && value.isNone then .ok (value, [])
+      else
+        match mkNErr env ctx schema m f code rule with
+        | .error e => .error e
+        | .ok e => .ok (value, [e])
 
 /-- a chain: stops after the member that left a COERCION_FAILED error at this field -/
 def coerceChain (env : Env) (ctx : Ctx) (schema : Val) (m : List (Key × Val)) (f : Key)
     (nullable : Bool) (code : Nat) (rule : String) (sofar : List Err) :
     List Val → Val → List Err → M (Val × List Err)
-  | [], v, acc => pure (v, acc)
-  | p :: ps, v, acc => do
-    let (v', es) ← match p with
-      | .seq _ inner =>
-        -- a nested chain: members run in order with the same rule (one level is all schemas allow)
-        inner.foldlM (fun (st : Val × List Err) q => do
-            let (x, e) ← coerceLeaf env ctx schema m f q st.1 nullable code rule
-            pure (x, st.2 ++ e)) (v, [])
-      | _ => coerceLeaf env ctx schema m f p v nullable code rule
-    let acc' := acc ++ es
-    if hasErrAt (sofar ++ acc') (ctx.docPath ++ [f]) Code.COERCION_FAILED then pure (v', acc')
-    else coerceChain env ctx schema m f nullable code rule sofar ps v' acc'
+  | [], v, acc => .ok (v, acc)
+  | p :: ps, v, acc =>
+    match coerceLeaf env ctx schema m f p v nullable code rule with
+    | .error e => .error e
+    | .ok (v', es) =>
+      if hasErrAt (sofar ++ (acc ++ es)) (ctx.docPath ++ [f]) Code.COERCION_FAILED then .ok (v', acc ++ es)
+      else coerceChain env ctx schema m f nullable code rule sofar ps v' (acc ++ es)
 
 def coerce (env : Env) (ctx : Ctx) (schema : Val) (m : List (Key × Val)) (f : Key) (proc : Val)
     (value : Val) (nullable : Bool) (code : Nat) (rule : String) (sofar : List Err) : M (Val × List Err) :=
